@@ -85,6 +85,11 @@ def wfRules (now : Nat) (b : Bundle) : List (String × Bool) := [
   ("hop-count-above-limit", decide (∀ c ∈ b.blocks, hopOk c.value)),
   ("lifetime-run-out", decide (NotExpired now b))]
 
+
+/-- Names of the rules that do not hold (what the driver reports). -/
+def brokenRules (now : Nat) (b : Bundle) : List String :=
+  ((wfRules now b).filter (fun r => !r.2)).map (·.1)
+
 /-! ### C01: the structures the wire can carry as such ("valid bundle" presupposes them)
 
 `Encodable` collects what Go's types guarantee (`uint64`, `uint8` fields, byte strings a reader can
